@@ -73,6 +73,9 @@ func Do(h http.Handler, rq Req) (rs Resp) {
 	if rq.UnknownLen {
 		req.ContentLength = -1
 	}
+	if req.Body == nil {
+		req.Body = http.NoBody // a server always hands the handler a non-nil body
+	}
 	req.RemoteAddr = "192.0.2.1:1234"
 	if rq.RemoteAddr != "" {
 		req.RemoteAddr = rq.RemoteAddr
